@@ -70,13 +70,15 @@ def write(
     appendovermode = [ 'oa', 'ao', 'o+', '+o', 'appendover']
     allmodes = writemode + overwritemode + appendmode + appendovermode
 
+    # validate `mode`
+    er = f"unrecognized mode {mode}; mode must be in {allmodes}"
+    assert(mode in allmodes), er
+
     # emdpath implies append mode
     if emdpath is not None and mode not in appendovermode:
         mode = 'a'
 
-    # validate `mode` and `tree` inputs
-    er = f"unrecognized mode {mode}; mode must be in {allmodes}"
-    assert(mode in allmodes), er
+    # validate `tree` inputs
     if tree == 'noroot':
         warn("`tree = 'noroot'` is deprecated and will be removed in a future version. Use `tree = None` instead.")
         tree = None
